@@ -24,8 +24,8 @@ func runC05(p *Prog, r *Report) {
 	c05HeaderSlots(p, r)
 	c05DeclaredHeadrooms(p, r)
 	// R8: the size limit follows the client's address (shared analysis with C11-R6)
-	r.Rule("C05-R8", "the packet size limit follows the client: in the session relays' downlinks, when the client's address record changes, everything computed from the address when the session started (the maximum packet size for the address family) is recomputed on every path through the update")
-	nb := addrChangeBlocks(p, r, "C05-R8", false, true)
+	r.Rule("C05-R8", "the packet size limit follows the client: in the session relays' downlinks, when the client's address record changes, everything computed from the address when the session started (the maximum packet size for the address family) is recomputed on every path through the update, and recomputed from the freshly loaded record: no field of the address record is read through an older snapshot inside the update (a size limit computed from the session's first address lets replies to a client that roamed from IPv4 to IPv6 exceed the path MTU by 20 bytes)")
+	nb := addrChangeBlocks(p, r, "C05-R8", true, true)
 	r.Count("address_change_blocks_C05", nb)
 	r.Floor("C05-R8", 2)
 }
